@@ -112,6 +112,8 @@ pub struct Attack {
     pub msgs: bool,
     /// free move (at most twice): 0.6 of a challenge lifetime passes while a challenge is outstanding
     pub halves: bool,
+    /// also forge WHOAREYOUs from the IPv4-compatible spelling of the destination (thorough tier)
+    pub compat: bool,
 }
 
 fn challenges_of(w: &World) -> Vec<(discv5::NodeAddress, Vec<u8>)> {
@@ -174,6 +176,11 @@ impl Driver for Attack {
             let claims: Vec<u32> = if addr.node_id == w.nodes[X].id { vec![0] } else if addr.node_id == m_id() { vec![1] } else if addr.node_id == e_id() { vec![2] } else { vec![] };
             for cl in claims {
                 for r in &self.handshake_records {
+                    // quick tier: the records that matter for the claimed identity (X: none, M's own,
+                    // X's genuine one; M: none, its own, with X's address, an older one; E: none, M's)
+                    if !self.compat && ((cl == 0 && !matches!(*r, 0 | 1 | 5)) || (cl == 1 && !matches!(*r, 0 | 1 | 3 | 6)) || (cl == 2 && !matches!(*r, 0 | 1))) {
+                        continue;
+                    }
                     for s in &self.handshake_sigs {
                         out.push((Ev::Ext(code(2, (ci as u32) << 16 | cl << 12 | (*r as u32) << 8 | *s as u32)), 1));
                     }
@@ -205,7 +212,9 @@ impl Driver for Attack {
                     out.push((Ev::Ext(code(3, (ai as u32) << 8 | 1)), 1));
                     out.push((Ev::Ext(code(3, (ai as u32) << 8 | 2)), 1));
                     out.push((Ev::Ext(code(3, (ai as u32) << 8 | 3)), 1));
-                    out.push((Ev::Ext(code(3, (ai as u32) << 8 | 4)), 1));
+                    if self.compat {
+                        out.push((Ev::Ext(code(3, (ai as u32) << 8 | 4)), 1));
+                    }
                 }
             }
         }
@@ -557,7 +566,7 @@ pub fn prefix_of(world: &str) -> Vec<Ev> {
 }
 
 pub fn driver(thorough: bool) -> Attack {
-    Attack { handshake_records: if thorough { vec![0, 1, 2, 3, 4, 5, 6] } else { vec![0, 1, 2, 3, 5, 6] }, handshake_sigs: if thorough { vec![0, 1, 2, 3] } else { vec![0, 1, 2] }, replays: true, ways: true, msgs: true, halves: thorough }
+    Attack { handshake_records: if thorough { vec![0, 1, 2, 3, 4, 5, 6] } else { vec![0, 1, 3, 5, 6] }, handshake_sigs: if thorough { vec![0, 1, 2, 3] } else { vec![0, 1, 2] }, replays: true, ways: true, msgs: true, halves: thorough, compat: thorough }
 }
 
 pub fn regression_holds(payload: &serde_json::Value, prop: &str) -> bool {
@@ -593,11 +602,12 @@ pub fn explore(prop: &str, thorough: bool, budget_s: f64, k_max: u32) -> (mc::St
     let mut d = driver(thorough);
     // partial passing of a challenge lifetime matters to the expiry clause of C03
     d.halves = thorough || prop == "C03";
+    let halves_world = |n: &str| thorough || n == "x-silent" || n == "v-dials-m";
     let mut cfgs = configs(thorough);
     if prop == "C19" {
         // nonce reuse under replayed / repeated handshakes: the crafted peer alone, genuine
         // handshakes with a verifiable and an unverifiable record, garbage, replays; worst-case RNG
-        d = Attack { handshake_records: vec![1, 3], handshake_sigs: vec![0], replays: true, ways: false, msgs: true, halves: false };
+        d = Attack { handshake_records: vec![1, 3], handshake_sigs: vec![0], replays: true, ways: false, msgs: true, halves: false, compat: false };
         cfgs.retain(|(n, _)| n == "x-silent" || (thorough && n == "v-dials-m"));
         for (_, c) in cfgs.iter_mut() {
             c.force_nonce = true;
@@ -634,7 +644,25 @@ pub fn explore(prop: &str, thorough: bool, budget_s: f64, k_max: u32) -> (mc::St
             if name == "v-rekeys-x" && !thorough && prop != "C01" && prop != "C02" {
                 continue;
             }
-            let d_world = if name == "v-rekeys-x" { Attack { handshake_records: vec![], handshake_sigs: vec![], ways: false, halves: false, ..d.clone() } } else { d.clone() };
+            // quick tier: the world in which V knows a newer record of X is part of the identity check
+            if name == "x-known-seq5" && !thorough && prop != "C01" {
+                continue;
+            }
+            // worlds added for one mechanism each get the moves that mechanism needs (quick tier)
+            let d_world = if name == "v-rekeys-x" {
+                Attack { handshake_records: vec![], handshake_sigs: vec![], ways: false, halves: false, ..d.clone() }
+            } else if name == "v-dials-m-retries2" && !thorough {
+                // forged WHOAREYOUs around a retransmission
+                Attack { handshake_records: vec![], handshake_sigs: vec![], replays: false, msgs: false, halves: false, ..d.clone() }
+            } else if name == "m-session-v-dials-m" && !thorough {
+                // forged WHOAREYOUs and replays on top of a session the crafted peer established itself
+                // (its scripted prefix uses M's hello and M's genuine handshake with its seq-1 record)
+                Attack { handshake_records: vec![1], handshake_sigs: vec![0], halves: false, ..d.clone() }
+            } else if !halves_world(name) {
+                Attack { halves: false, ..d.clone() }
+            } else {
+                d.clone()
+            };
             let d = &d_world;
             // only the clauses read for this property (C02 reads C01's attribution clause)
             let mut cfg = cfg.clone();
